@@ -219,7 +219,8 @@ class Agent(dbus.service.Object):
             except:
                 pass
 
-        for hdl in self._handlers:
+        # closing a contact removes it from the list
+        for hdl in tuple(self._handlers):
             hdl.close()
 
         if tuple(self.locations):
